@@ -5,6 +5,8 @@ persistent-shell, direct-exec fallback, tar-stream and ``RemoteStreamFlowPath`` 
 subprocesses, hence the standard event loop."""
 from __future__ import annotations
 
+import shlex
+
 from streamflow.core.scheduling import AvailableLocation
 from streamflow.deployment.connector import connector_classes
 from streamflow.deployment.connector.base import BaseConnector
@@ -22,6 +24,14 @@ class ShellRemoteConnector(BaseConnector):
         return {f"sh{i}": AvailableLocation(name=f"sh{i}", deployment=self.deployment_name, service=service,
                                              hostname="localhost", local=False, slots=8)
                 for i in range(self.nlocations)}
+
+    # A remote connector hands the stream command LINE to the remote side's shell (sshd runs it through the user's
+    # shell); BaseConnector's own get_stream_* exec the split words without a shell, which no remote deployment does.
+    async def get_stream_reader(self, command, location):
+        return await super().get_stream_reader(["sh", "-c", shlex.quote(" ".join(command))], location)
+
+    async def get_stream_writer(self, command, location):
+        return await super().get_stream_writer(["sh", "-c", shlex.quote(" ".join(command))], location)
 
     @classmethod
     def get_schema(cls) -> str:
